@@ -41,3 +41,207 @@ Proof.
     destruct fired; [destruct (rflag x)|]; [apply (SC (set_last s r n)) | apply (SC s2) | apply (SC (set_last s r n))]; auto; intros ->; left; exact W.
   - apply (SC (set_last s r n)); auto. intros ->. right. reflexivity.
 Qed.
+
+(* ------------------------------------------------------------------ *)
+(* one section: the snapshot is untouched, the nonce moves forward whenever the mirrored content changes *)
+Definition QA (i sn0 n0 : nat) (a0 : bool * nat * nat) (l : list cons) : Prop :=
+  let y := nth i l cons0 in ac_snap y = sn0 /\ ((acont y = a0 /\ ac_nonce y = n0) \/ n0 < ac_nonce y).
+
+Lemma cb_access_QA x n sn0 n0 a0 :
+  ac_snap x = sn0 /\ ((acont x = a0 /\ ac_nonce x = n0) \/ n0 < ac_nonce x) ->
+  ac_snap (cb_access x n) = sn0 /\ ((acont (cb_access x n) = a0 /\ ac_nonce (cb_access x n) = n0) \/ n0 < ac_nonce (cb_access x n)).
+Proof.
+  intros [H1 H2]. unfold cb_access, acont.
+  destruct n as [|v e]; [destruct (Bool.eqb false (ac_res x) && Nat.eqb 0 (ac_val x) && Nat.eqb 0 (ac_err x))
+                        | destruct (Bool.eqb true (ac_res x) && Nat.eqb v (ac_val x) && Nat.eqb e (ac_err x))];
+    cbn [ac_snap ac_nonce ac_res ac_val ac_err]; (split; [exact H1|]); try exact H2; right; destruct H2 as [[_ H2]|H2]; lia.
+Qed.
+
+Lemma invoke_QA i sn0 n0 a0 s r n : QA i sn0 n0 a0 (conss s) -> QA i sn0 n0 a0 (conss (invoke s r n)).
+Proof.
+  unfold QA. fold (getc s i) (getc (invoke s r n) i). intros H.
+  destruct (invoke_acf s r n i) as [E|E]; destruct (acf_fields _ _ E) as [E1 [E2 [E3 [E4 [E5 _]]]]]; unfold acont in *; rewrite E1, E2, E3, E4, E5.
+  - exact H.
+  - exact (cb_access_QA (getc s i) n sn0 n0 a0 H).
+Qed.
+
+Lemma QA_set i sn0 n0 a0 l c y : QA i sn0 n0 a0 l -> (c = i -> acf y = acf (nth i l cons0)) -> QA i sn0 n0 a0 (set_nth l c y).
+Proof.
+  unfold QA. intros H Hy. destruct (Nat.lt_ge_cases c (length l)) as [Hl|Hl]; [|now rewrite set_nth_oob].
+  destruct (Nat.eq_dec i c) as [->|Hne]; [|now rewrite nth_set_nth_other].
+  rewrite nth_set_nth_same by exact Hl. destruct (acf_fields _ _ (Hy eq_refl)) as [E1 [E2 [E3 [E4 [E5 _]]]]]. unfold acont in *. now rewrite E1, E2, E3, E4, E5.
+Qed.
+
+Lemma map_acf_nth s s' i : map acf (conss s') = map acf (conss s) -> acf (nth i (conss s') cons0) = acf (nth i (conss s) cons0).
+Proof. intros H. exact (map_nth_getc acf s s' i H). Qed.
+
+Lemma QA_acf i sn0 n0 a0 l l' : acf (nth i l' cons0) = acf (nth i l cons0) -> QA i sn0 n0 a0 l -> QA i sn0 n0 a0 l'.
+Proof. unfold QA. intros E. destruct (acf_fields _ _ E) as [E1 [E2 [E3 [E4 [E5 _]]]]]. unfold acont. now rewrite E1, E2, E3, E4, E5. Qed.
+
+(* sections never enter section S1 of Access: every event keeps QA *)
+Lemma sect_QA i sn0 n0 a0 s e :
+  i < length (conss s) -> (forall c, e <> EConsStep c) -> QA i sn0 n0 a0 (conss s) -> QA i sn0 n0 a0 (conss (step repaired s e)).
+Proof.
+  intros Hi Hne H. destruct e as [c0|k|r|a|g|a|g en|g v hr er|g|k|c0|c0|c0|c0 res|c0];
+    try (apply (Q_step_container (QA i sn0 n0 a0) (invoke_QA i sn0 n0 a0)); [exact I | exact H]); cbn [step].
+  - unfold release_section. destruct (nth_error (relacts s) a) as [x|]; [|exact H]. destruct (ra_pc x); [|exact H].
+    set (s1 := remove_ref _ (ra_ref x)). assert (H1 : QA i sn0 n0 a0 (conss s1)) by (apply (Q_remove_ref _ (invoke_QA i sn0 n0 a0)); exact H).
+    destruct (ra_cons x) as [c1|]; [|exact H1]. destruct (cpcv (getc s1 c1)) eqn:Ec; try exact H1.
+    cbn [conss set_conss]. apply QA_set; [exact H1|]. intros ->. reflexivity.
+  - unfold start_consumer. apply (Q_add_ref _ (invoke_QA i sn0 n0 a0)). cbn [conss set_conss]. unfold QA. rewrite app_nth1 by exact Hi. exact H.
+  - exfalso. exact (Hne c0 eq_refl).
+  - destruct (nth_error (conss s) c0) as [x|] eqn:Ex; [|exact H]. rewrite conss_setc. apply QA_set; [exact H|]. intros ->.
+    fold (getc s i). now rewrite (getc_x s i x Ex).
+  - unfold fire_section. destruct (nth_error (conss s) c0) as [x|] eqn:Ex; [|exact H]. destruct (ww_firepc x) as [[|]|]; try exact H.
+    apply (Q_remove_ref _ (invoke_QA i sn0 n0 a0)). rewrite conss_setc. apply QA_set; [exact H|]. intros ->. fold (getc s i). now rewrite (getc_x s i x Ex).
+  - apply (QA_acf i sn0 n0 a0 (conss s)); [|exact H]. apply map_acf_nth. apply (cfd_cb_return acf); reflexivity.
+Qed.
+
+(* ------------------------------------------------------------------ *)
+(* program points across a section *)
+Definition Qpc (i : nat) (p0 : cpc) (l : list cons) : Prop := cpcv (nth i l cons0) = p0.
+
+Lemma invoke_Qpc i p0 s r n : Qpc i p0 (conss s) -> Qpc i p0 (conss (invoke s r n)).
+Proof. unfold Qpc. fold (getc s i) (getc (invoke s r n) i). intros H. destruct (invoke_cq s r n i) as [_ [E _]]. congruence. Qed.
+
+Lemma Qpc_set i p0 l c y : Qpc i p0 l -> (c = i -> cpcv y = p0) -> Qpc i p0 (set_nth l c y).
+Proof.
+  unfold Qpc. intros H Hy. destruct (Nat.lt_ge_cases c (length l)) as [Hl|Hl]; [|now rewrite set_nth_oob].
+  destruct (Nat.eq_dec i c) as [->|Hne]; [rewrite nth_set_nth_same by exact Hl; now apply Hy | now rewrite nth_set_nth_other].
+Qed.
+
+Lemma sect_pc_container s e i :
+  match e with ERelSect _ | EStartCons _ | EConsStep _ | EConsCancel _ | EFire _ | ECbReturn _ _ => False | _ => True end ->
+  cpcv (getc (step repaired s e) i) = cpcv (getc s i).
+Proof. intros He. exact (Q_step_container (Qpc i (cpcv (getc s i))) (invoke_Qpc i _) s e He eq_refl). Qed.
+
+(* a section leaves a consumer that is inside its Access callback there, unless it is that callback's return; and no section
+   puts a consumer into the callback *)
+Lemma sect_pc s e i :
+  i < length (conss s) -> ck (getc s i) = CKAccess -> (forall c, e <> EConsStep c) ->
+  (is_cb (cpcv (getc s i)) = true -> (forall res, e <> ECbReturn i res) -> cpcv (getc (step repaired s e) i) = cpcv (getc s i)) /\
+  (is_cb (cpcv (getc (step repaired s e) i)) = true -> is_cb (cpcv (getc s i)) = true /\ forall res, e <> ECbReturn i res).
+Proof.
+  intros Hi Hk Hne.
+  assert (Same : cpcv (getc (step repaired s e) i) = cpcv (getc s i) ->
+    (is_cb (cpcv (getc s i)) = true -> (forall res, e <> ECbReturn i res) -> cpcv (getc (step repaired s e) i) = cpcv (getc s i)) /\
+    (is_cb (cpcv (getc (step repaired s e) i)) = true -> is_cb (cpcv (getc s i)) = true)).
+  { intros E. split; [auto | now rewrite E]. }
+  assert (Keep : Qpc i (cpcv (getc s i)) (conss s)) by reflexivity.
+  destruct e as [c0|k|r|a|g|a|g en|g v hr er|g|k|c0|c0|c0|c0 res|c0];
+    try (destruct Same as [S1 S2]; [apply sect_pc_container; exact I|]; split; [exact S1 | intros H; split; [now apply S2 | intros; discriminate]]);
+    cbn [step].
+  - (* removeRef section: only a consumer inside its own Release moves *)
+    unfold release_section. destruct (nth_error (relacts s) a) as [x|]; [|split; [auto | intros H; split; [exact H | intros; discriminate]]].
+    destruct (ra_pc x); [|split; [auto | intros H; split; [exact H | intros; discriminate]]].
+    set (s1 := remove_ref _ (ra_ref x)). assert (H1 : Qpc i (cpcv (getc s i)) (conss s1)) by (apply (Q_remove_ref _ (invoke_Qpc i _)); exact Keep).
+    unfold Qpc in H1. fold (getc s1 i) in H1.
+    destruct (ra_cons x) as [c1|]; [|rewrite H1; split; [auto | intros H; split; [exact H | intros; discriminate]]].
+    destruct (cpcv (getc s1 c1)) eqn:Ec; try (rewrite H1; split; [auto | intros H; split; [exact H | intros; discriminate]]).
+    change (set_conss s1 (set_nth (conss s1) c1 ?y)) with (setc s1 c1 y).
+    destruct (Nat.eq_dec i c1) as [<-|Hn1].
+    + rewrite Ec in H1. rewrite <- H1. destruct (Nat.lt_ge_cases i (length (conss s1))) as [Hl|Hl].
+      * rewrite getc_setc, Nat.eqb_refl by exact Hl. cbn [cpcv with_cpc is_cb]. split; [discriminate|]. destruct (ck (getc s1 i)); discriminate.
+      * rewrite getc_setc_oob, Ec by exact Hl. split; [discriminate | discriminate].
+    + rewrite getc_setc_other by exact Hn1. rewrite H1. split; [auto | intros H; split; [exact H | intros; discriminate]].
+  - (* a new consumer *)
+    unfold start_consumer. set (s0 := set_conss s _).
+    assert (K0 : Qpc i (cpcv (getc s i)) (conss s0)) by (unfold Qpc, s0; cbn [conss set_conss]; now rewrite app_nth1).
+    match goal with |- context [add_ref repaired s0 ?kk] => pose proof (Q_add_ref _ (invoke_Qpc i _) s0 kk K0) as H1 end.
+    unfold Qpc in H1. change (nth i (conss ?a) cons0) with (getc a i) in H1.
+    rewrite H1. split; [auto | intros H; split; [exact H | intros; discriminate]].
+  - exfalso. exact (Hne c0 eq_refl).
+  - destruct (nth_error (conss s) c0) as [x|] eqn:Ex; [|split; [auto | intros H; split; [exact H | intros; discriminate]]].
+    assert (E : cpcv (getc (setc s c0 {| ck := ck x; cref := cref x; ccanc := true; cpcv := cpcv x; cw_res := cw_res x; ww_res := ww_res x;
+                            ww_nonce := ww_nonce x; ww_prom := ww_prom x; ww_once := ww_once x; ww_fired := ww_fired x; ww_firepc := ww_firepc x;
+                            ac_val := ac_val x; ac_err := ac_err x; ac_res := ac_res x; ac_nonce := ac_nonce x; ac_snap := ac_snap x;
+                            ac_cbcanc := ac_cbcanc x; ac_cbres := ac_cbres x |}) i) = cpcv (getc s i)).
+    { destruct (getc_nth_error s c0 x Ex) as [Eg Hl]. rewrite getc_setc by exact Hl. destruct (Nat.eqb_spec i c0) as [->|]; [now rewrite Eg | reflexivity]. }
+    rewrite E. split; [auto | intros H; split; [exact H | intros; discriminate]].
+  - unfold fire_section. destruct (nth_error (conss s) c0) as [x|] eqn:Ex; [|split; [auto | intros H; split; [exact H | intros; discriminate]]].
+    destruct (ww_firepc x) as [[|]|]; try (split; [auto | intros H; split; [exact H | intros; discriminate]]).
+    assert (K0 : Qpc i (cpcv (getc s i)) (conss (setc s c0 (with_fire x (S (ww_fired x)) (Some RDone))))).
+    { rewrite conss_setc. apply Qpc_set; [exact Keep|]. intros ->. now rewrite (getc_x s i x Ex). }
+    pose proof (Q_remove_ref _ (invoke_Qpc i _) _ (cref x) K0) as H1. unfold Qpc in H1. change (nth i (conss ?a) cons0) with (getc a i) in H1.
+    rewrite H1. split; [auto | intros H; split; [exact H | intros; discriminate]].
+  - (* the callback of consumer c0 returns *)
+    destruct (Nat.eq_dec i c0) as [->|Hn0].
+    + split; [intros _ Hr; exfalso; exact (Hr res eq_refl)|]. intros H. exfalso.
+      unfold cb_return in H. destruct (nth_error (conss s) c0) as [x|] eqn:Ex.
+      2:{ apply nth_error_None in Ex. lia. }
+      destruct (getc_nth_error s c0 x Ex) as [Eg Hl].
+      assert (AR : forall e', is_cb (cpcv (getc (acc_ret s c0 x e') c0)) = false).
+      { intros e'. destruct (acc_ret_pc s c0 x x e' Ex) as [E|E]; rewrite E; reflexivity. }
+      rewrite Eg in Hk. rewrite Hk in H.
+      destruct (cpcv x) eqn:Ep; try (rewrite Eg, Ep in H; discriminate H).
+      destruct (ccanc x); [rewrite AR in H; discriminate|].
+      match type of H with is_cb (cpcv (getc (if ?b then _ else _) _)) = true => destruct b end; [rewrite AR in H; discriminate|].
+      rewrite getc_setc, Nat.eqb_refl in H by exact Hl. discriminate H.
+    + rewrite cb_return_other by exact Hn0. split; [auto | intros H; split; [exact H | intros r0 E; apply Hn0; now inversion E]].
+Qed.
+
+(* ------------------------------------------------------------------ *)
+(* the eager schedule, seen from one consumer: exactly one step of its own *)
+Lemma len_conss_cons_step s c : length (conss (cons_step s c)) = length (conss s).
+Proof. rewrite <- (map_length ck (conss (cons_step s c))), (cfd_cons_step ck) by reflexivity. apply map_length. Qed.
+
+Lemma fold_cons_step_other l : forall s i, ~ In i l -> getc (fold_left cons_step l s) i = getc s i /\ length (conss (fold_left cons_step l s)) = length (conss s).
+Proof.
+  induction l as [|c l IH]; intros s i Hn; [split; reflexivity|]. cbn [fold_left].
+  destruct (IH (cons_step s c) i ltac:(intros H; apply Hn; now right)) as [A B]. rewrite A, B, len_conss_cons_step.
+  split; [apply cons_step_other; intros E; apply Hn; now left | reflexivity].
+Qed.
+
+Lemma conss_fold_wake l : forall s, conss (fold_left wake_g l s) = conss s.
+Proof.
+  induction l as [|g l IH]; intros s; [reflexivity|]. cbn [fold_left]. rewrite IH. unfold wake_g. destruct (gpcv (getg s g)); try reflexivity; apply conss_proceed.
+Qed.
+
+Lemma settle_getc s i : i < length (conss s) ->
+  exists sX, getc sX i = getc s i /\ length (conss sX) = length (conss s) /\ getc (settle s) i = getc (cons_step sX i) i.
+Proof.
+  intros Hi. unfold settle. set (s2 := fold_left wake_g (seq 0 (length (gs s))) s).
+  assert (E2 : conss s2 = conss s) by apply conss_fold_wake. rewrite E2.
+  assert (Hseq : seq 0 (length (conss s)) = seq 0 i ++ i :: seq (S i) (length (conss s) - S i)).
+  { replace (length (conss s)) with (i + S (length (conss s) - S i)) at 1 by lia. rewrite seq_app. reflexivity. }
+  rewrite Hseq, fold_left_app. cbn [fold_left].
+  destruct (fold_cons_step_other (seq 0 i) s2 i ltac:(rewrite in_seq; lia)) as [A B].
+  set (sX := fold_left cons_step (seq 0 i) s2) in *. exists sX. split; [rewrite A; unfold getc; now rewrite E2|]. split; [now rewrite B, E2|].
+  apply fold_cons_step_other. rewrite in_seq. lia.
+Qed.
+
+(* a consumer that is inside its callback stays there (only the callback's return ends it) *)
+Lemma cons_step_in_cb s c x : nth_error (conss s) c = Some x -> ck x = CKAccess -> is_cb (cpcv x) = true -> cons_step s c = s.
+Proof. intros Hx Hk Hp. unfold cons_step. rewrite Hx, Hk. destruct (cpcv x); try discriminate Hp. reflexivity. Qed.
+
+Lemma settle_in_cb s i : i < length (conss s) -> ck (getc s i) = CKAccess -> is_cb (cpcv (getc s i)) = true -> getc (settle s) i = getc s i.
+Proof.
+  intros Hi Hk Hp. destruct (settle_getc s i Hi) as [sX [A [B C]]]. rewrite C.
+  rewrite (cons_step_in_cb sX i (getc sX i)); [exact A | apply nth_error_getc; lia | now rewrite A | now rewrite A].
+Qed.
+
+(* a callback that the eager schedule has just entered: fresh, uncancelled context, nothing notified since Access looked *)
+Lemma settle_fresh_cb s i : i < length (conss s) -> ck (getc s i) = CKAccess -> is_cb (cpcv (getc s i)) = false ->
+  is_cb (cpcv (getc (settle s) i)) = true ->
+  ac_cbcanc (getc (settle s) i) = false /\ ac_nonce (getc (settle s) i) = ac_snap (getc (settle s) i).
+Proof.
+  intros Hi Hk Hp H. destruct (settle_getc s i Hi) as [sX [A [B C]]]. rewrite C in *.
+  assert (Hx : nth_error (conss sX) i = Some (getc s i)) by (rewrite <- A; apply nth_error_getc; lia).
+  assert (Idle : forall p, cpcv (getc s i) = p -> (p <> CBlocked) -> (p <> CAccWait) -> cons_step sX i = sX).
+  { intros p Ep N1 N2. unfold cons_step. rewrite Hx, Hk, Ep. destruct p; try reflexivity; contradiction. }
+  destruct (cpcv (getc s i)) eqn:Ep; try (rewrite (Idle _ eq_refl) in H by discriminate; rewrite A, Ep in H; discriminate H).
+  - (* at the top of the loop *)
+    pose proof (access_loop_step sX i _ Hx Hk (or_introl Ep)) as L. cbv zeta in L.
+    destruct (negb (Nat.eqb (ac_err (getc s i)) 0)); [destruct L as [L|L]; rewrite L in H; discriminate|].
+    destruct (ac_res (getc s i)); [tauto|]. destruct (ccanc (getc s i)); [destruct L as [L|L]; rewrite L in H; discriminate | destruct L as [L _]; rewrite L in H; discriminate].
+  - discriminate Hp.
+  - (* waiting *)
+    destruct (Nat.eq_dec (ac_nonce (getc s i)) (ac_snap (getc s i))) as [En|En].
+    + exfalso. unfold cons_step in H. rewrite Hx, Hk, Ep in H. destruct (Nat.eqb_spec (ac_nonce (getc s i)) (ac_snap (getc s i))) as [_|N]; [|contradiction]. cbn [negb] in H.
+      destruct (ccanc (getc s i)).
+      * destruct (acc_ret_pc sX i _ (getc s i) 1 Hx) as [E|E]; rewrite E in H; discriminate.
+      * rewrite A, Ep in H. discriminate.
+    + pose proof (access_loop_step sX i _ Hx Hk (or_intror (conj Ep En))) as L. cbv zeta in L.
+      destruct (negb (Nat.eqb (ac_err (getc s i)) 0)); [destruct L as [L|L]; rewrite L in H; discriminate|].
+      destruct (ac_res (getc s i)); [tauto|]. destruct (ccanc (getc s i)); [destruct L as [L|L]; rewrite L in H; discriminate | destruct L as [L _]; rewrite L in H; discriminate].
+Qed.
